@@ -7,11 +7,13 @@ SPEC = {
     "ampl": ["UNC_BEFORE_POP", "UNC_SIG_AFTER_PUSH", "YIELD_CB_AFTER_PUT", "FIN_BEFORE_POP"],
     "required": ["UNC_SIG_EARLY", "UNC_SIG_SPIN", "UNC_SIG_AFTER_CLEAR", "SCHED_STEAL_OK"],
     "nontrivial_ids": ["UNC_SIG_AFTER_CLEAR"],
-    "n_quick": 150, "n_thorough": 3000,
+    "n_quick": 90, "n_thorough": 3000,
     "variants": {"h0": 55, "h2": 35, "asan": 10},
     "rule": ("each evaluation is one process running `progs` programs: 1-12 thread pairs doing thousands of two-way "
              "rendezvous over the same two uncondition variables following the documented protocol (announce "
-             "atomically, wait / atomically clear, signal) and single-slot SPSC channels with numbered items; each "
+             "atomically, wait / atomically clear, signal) single-slot SPSC channels with numbered items, and rotation programs (2-6 threads take turns "
+             "as the single waiter of ONE variable, served back to back by one signaler, so that a signal is often issued "
+             "while the previous turn's waiter has been handed over but has not run yet); each "
              "wait return is checked against the stamp and sequence number of the signal that must have caused it "
              "and the per-side resume count. Non-trivial = at least one hand-over happened; UNC_SIG_EARLY counts "
              "signals that arrived before the waiter had published itself. distinct = distinct (hook ids that "
